@@ -77,6 +77,7 @@ func LoadSchemaWithoutCompile(
 	rules map[string]schema.Rule,
 ) ischema.ISchema {
 	l := loaderPool.Get().(*loader)
+	verifLoaderGot(l)
 	defer func() {
 		l.reset()
 		loaderPool.Put(l)
